@@ -38,7 +38,11 @@ def strategy_(draw, tier):
     return {"tkind": tkind,
             "kind": draw(st.sampled_from(gen.KINDS)),
             "name": draw(gen.names(raw=draw(st.integers(0, 11)) == 0)),
-            "subdirs": draw(st.lists(gen.names(long_ok=False), max_size=2)),
+            "subdirs": draw(st.one_of(st.lists(gen.names(long_ok=False), max_size=2),
+                                      st.lists(gen.names(long_ok=False), max_size=2),
+                                      st.lists(gen.names(long_ok=False), max_size=2),
+                                      # several kB of escaped location, far below PATH_MAX
+                                      st.integers(5, 8).map(lambda n: ["\u6587" * 70 + str(i) for i in range(n)]))),
             "hist": draw(st.lists(st.sampled_from(HIST), max_size=4)),
             "rm_parent": draw(st.booleans()),
             "sort": draw(st.sampled_from([None, "date", "path", "none"])),
